@@ -430,6 +430,16 @@ func genCW(r *rand.Rand) *Case {
 	if r.Intn(3) == 0 {
 		cs.Req.Kind = "calendar-multiget"
 		cs.Paths = g.hrefList(0)
+		if g.chance(8) {
+			// member names relative to the collection, some with a colon in
+			// their first segment (as a reference they need "./" in front,
+			// or they read as a URI with a scheme)
+			for i := range cs.Paths {
+				if g.chance(2) {
+					cs.Paths[i] = g.pick([]string{"a.ics", "urn:uuid:1f0b5c3e.ics", "standup 09:30.ics", "a:b", "sub/a:b.ics", "x:y/z.ics", "mailto:a@b", "1:2", "é:ü.ics"})
+				}
+			}
+		}
 	} else {
 		cs.Req.Kind = "calendar-query"
 		f := g.compFilter(1)
